@@ -14,10 +14,10 @@ EXPLANATION = ('A crash point is a boundary between two filesystem calls, so val
                'unlink(source), after link-EEXIST additionally set-atime(destination); (R02.3) every named temp file is created in a '
                'directory obtained from the write side\'s temp-dir operation, every implementation of that operation returns a '
                'temp-accessor path, and every temp accessor is built by pushing the public constant ".kismet_temp"; (R02.4) the '
-               'mutating effect closure of prune is {unlink, utimens}, of temp cleanup {unlink}; (R02.5) age gate (as C17); '
+               'mutating effect closure of prune is {unlink, utimens}, of temp cleanup {unlink}; (R02.5) age gate (as C17); (R02.8) every unlink of the temp sweep names <temp dir>/<listed entry> (as R17.4), so stale debris is really reclaimed; '
                '(R02.6) after a failed first publish attempt no Ok exit is reachable without create_dir_all(parent) and a second '
                'attempt. That later operations succeed on a crashed tree is not decided.')
-FLOORS = {'R02.1': 2, 'R02.2': 3, 'R02.3': 5, 'R02.4': 2, 'R02.5': 3, 'R02.6': 2, 'R02.7': 1}
+FLOORS = {'R02.1': 2, 'R02.2': 3, 'R02.3': 5, 'R02.4': 2, 'R02.5': 3, 'R02.6': 2, 'R02.7': 1, 'R02.8': 2}
 
 
 def r02_1(ctx):
@@ -172,6 +172,17 @@ def r02_5(ctx):
     return out
 
 
+def r02_8(ctx):
+    """debris is reclaimed: every unlink of the temp sweep names exactly <temp dir>/<the listed entry> (= R17.4).  A scratch
+    path that keeps a stale component (a `pop()` skipped on the error path) makes every later unlink of the sweep miss its
+    file, so stale debris is never removed although the sweep "runs"."""
+    out = []
+    for i in c17.r17_3_4(ctx):
+        if i['rule'] == 'R17.4':
+            out.append(inst('R02.8', i['key'].split('|', 1)[1], i['ok'], i['detail'], path=i['path']))
+    return out
+
+
 def r02_6(ctx):
     out = []
     m = ctx.cachedir_methods()
@@ -230,4 +241,4 @@ def r02_7(ctx):
 
 def run(ctx):
     from runner import collect
-    return collect(ctx, r02_1, r02_2, r02_3, r02_4, r02_5, r02_6, r02_7)
+    return collect(ctx, r02_1, r02_2, r02_3, r02_4, r02_5, r02_6, r02_7, r02_8)
